@@ -229,7 +229,15 @@ def run(ck, prog, ctx):
     gets = {}
     for bi, t in ac.calls():
         if (t.callee.res or "").endswith("DistanceMatrix::get") and len(t.args) == 2:
-            gets[bi] = (t, tuple(frozenset(comp(pvl.of_operand(ac, t.args[1], (("f", i, "tuple"),)))) for i in ("0", "1")))
+            cc = tuple(frozenset(comp(pvl.of_operand(ac, t.args[1], (("f", i, "tuple"),)))) for i in ("0", "1"))
+            # the key may be built by a private helper that orders its two arguments (`matrix_key(a, b) -> (min, max)`)
+            via = None
+            for a_ in pvl.of_operand(ac, t.args[1]):
+                if a_[0] == "call" and a_[3] == ac.id and a_[1] in prog.bodies and prog.bodies[a_[1]].kind in ("Fn", "AssocFn") and prog.bodies[a_[1]].file == ac.file:
+                    ht = ac.blocks[a_[4]].term
+                    if len(ht.args) == 2:
+                        via = (prog.bodies[a_[1]], tuple(frozenset(comp(pvl.of_operand(ac, x))) for x in ht.args))
+            gets[bi] = (t, cc, via)
     # ordering facts: switch edges on the discriminant of an Ord::cmp result
     cmps = {}
     for bi, t in ac.calls():
@@ -266,7 +274,21 @@ def run(ck, prog, ctx):
         ks = []
         ok_shape = True
         for u in used:
-            gt, (c0, c1) = gets[u[0]]
+            gt, (c0, c1), via = gets[u[0]]
+            if via is not None and (set(c0) & set(c1)):
+                # key normalised by a helper: the pair is the helper's two arguments; their order is the helper's business
+                hb, (h0, h1) = via
+                mins = {c.callee.method for _, c in hb.calls()} & {"min", "max", "cmp", "lt", "gt", "le", "ge"}
+                cmpst = [st for _, st in hb.stmts() if st.k == "assign" and st.rv["k"] == "bin" and st.rv["op"] in ("Lt", "Le", "Gt", "Ge")]
+                kk = (set(h0) | set(h1)) & {"K0", "K1"}
+                shape_h = len(kk) == 1 and (("IDX" in h0) != ("IDX" in h1))
+                ok_shape &= shape_h
+                ks.append(sorted(kk)[0] if len(kk) == 1 else "?")
+                if mins or cmpst:
+                    ck.ob("PAIR", "update/%d/order/%s" % (n_upd, ks[-1]), True, "lookup key ordered by the helper %s (compares its two arguments)" % hb.short, where=ac.where(gt.line))
+                else:
+                    ck.undecided("PAIR", "update/%d/order/%s" % (n_upd, ks[-1]), "lookup key built by the helper %s, which is not recognised as ordering its arguments" % hb.short, where=ac.where(gt.line))
+                continue
             both = (set(c0), set(c1))
             kk = (both[0] | both[1]) & {"K0", "K1"}
             shape = len(kk) == 1 and (("IDX" in both[0]) != ("IDX" in both[1])) and not (both[0] & both[1])
